@@ -140,7 +140,7 @@ class CheckC04(core.Check):
             elif kind == "nonce":
                 rkw = {"n": alt}
             # output buffers: large, exactly the payload length (0 for an empty payload), or message length
-            lr = c.op(rop, target, msg=msg, buf=rnd.choice([BIG, plen, plen, plen + 16]), **rkw)
+            lr = c.op(rop, target, msg=msg, buf=rnd.choice([BIG, plen, plen, plen + rnd.randrange(1, 16), plen + 16]), **rkw)
             subs.append((j, lw, lr, kind, arg, plen))
         c.meta["subs"] = subs
         c.info = {"name": name, "key": (name.split("_")[3], be0, be1, "oneway" if parsed.oneway else "interactive", mode)}
